@@ -194,8 +194,45 @@ func condEdges(fn *ssa.Function, pick func(f core.Fact, ifi *ssa.If) (bool, int)
 		if ifi == nil {
 			continue
 		}
-		if ok, i := pick(core.CondFact(ifi.Cond), ifi); ok {
-			es.Add(b, i)
+		// a materialised chain every operand of which selects the pick's edge on the side the chain does NOT
+		// determine: the opposite edge of the If establishes the disjunction of the wanted facts
+		// (`ok := s == A || s == B; if !ok { return }`: behind the If one of s == A, s == B holds)
+		if edge, parts, isChain := core.LogicalParts(ifi); isChain {
+			all := len(parts) > 0
+			for _, pt := range parts {
+				ok, i := pick(core.CondFact(pt.V), &ssa.If{Cond: pt.V})
+				if !ok || (i == 0) == pt.Truth {
+					all = false
+				}
+			}
+			if all {
+				es.Add(b, 1-edge)
+			}
+		}
+		for n, ef := range core.CondFactsOf(ifi) {
+			at := ifi
+			if n > 0 {
+				at = &ssa.If{Cond: ef.Cond} // operand of a short-circuit condition evaluated as a value
+			}
+			f := ef.Fact
+			if n > 0 {
+				f = core.CondFact(ef.Cond) // pick sees the operand as if it were tested by its own If
+			}
+			ok, i := pick(f, at)
+			if !ok {
+				continue
+			}
+			if n == 0 {
+				es.Add(b, i)
+				continue
+			}
+			// the operand's own edge i (0: operand true, 1: operand false) corresponds to an edge of this If only
+			// on the side the chain determines
+			edge, parts, _ := core.LogicalParts(ifi)
+			truth := parts[n-1].Truth
+			if (i == 0) == truth {
+				es.Add(b, edge)
+			}
 		}
 	}
 	return es
@@ -370,7 +407,10 @@ func (c *Ctx) mapUpdateSites(fn *ssa.Function) []updSite {
 // result holds for an instruction that satisfies pred itself, or that is a static call to a module
 // function (not a closure of another function) whose body contains an instruction for which it holds.
 // Use it for predicates that do not depend on the instruction's operands in the caller.
-func (c *Ctx) throughHelpers(pred InstrPred) InstrPred {
+func (c *Ctx) throughHelpers(pred InstrPred) InstrPred { return c.throughHelpersExcept(pred, nil) }
+
+// throughHelpersExcept is throughHelpers that does not look into the helpers for which stop holds.
+func (c *Ctx) throughHelpersExcept(pred InstrPred, stop func(*ssa.Function) bool) InstrPred {
 	memo := map[*ssa.Function]int{}
 	var has func(g *ssa.Function, d int) bool
 	var lifted func(in ssa.Instruction, d int) bool
@@ -408,7 +448,7 @@ func (c *Ctx) throughHelpers(pred InstrPred) InstrPred {
 			return false
 		}
 		g := core.StaticCallee(call)
-		if g == nil || len(g.Blocks) == 0 || !c.P.InModule(g) {
+		if g == nil || len(g.Blocks) == 0 || !c.P.InModule(g) || stop != nil && stop(g) {
 			return false
 		}
 		return has(g, d+1)
@@ -645,4 +685,36 @@ func (c *Ctx) behindEdgesDeep(rule, key string, fn *ssa.Function, pick func(f co
 		return n
 	}
 	return walk(fn, 0)
+}
+
+// decodesType: call is <typ>.Unmarshal, or a static call of a module function that (up to depth levels down) decodes
+// a value of that type and reports failure through an error result - a decode helper like
+// `func unmarshalRecord(val []byte) (T, error)`. typ is the short form "pb.TransactionRecord".
+func (c *Ctx) decodesType(call ssa.CallInstruction, typ string, depth int) bool {
+	if o := core.CalleeObj(call); o != nil && o.Name() == "Unmarshal" && strings.HasSuffix(core.CalleeName(call), typ+").Unmarshal") {
+		return true
+	}
+	if depth == 0 {
+		return false
+	}
+	callee := call.Common().StaticCallee()
+	if callee == nil || len(callee.Blocks) == 0 || !c.P.InModule(callee) {
+		return false
+	}
+	res := callee.Signature.Results()
+	hasErr := false
+	for i := 0; i < res.Len(); i++ {
+		if res.At(i).Type().String() == "error" {
+			hasErr = true
+		}
+	}
+	if !hasErr {
+		return false
+	}
+	for _, cc := range core.Calls(callee) {
+		if c.decodesType(cc, typ, depth-1) {
+			return true
+		}
+	}
+	return false
 }
